@@ -41,6 +41,15 @@ var hPatterns = []hPattern{
 	6: {src: `[a-f]+\d`, opts: regexp2.IgnoreCase},                                                       // class with ASCII bitmap
 	7: {src: `needle\w+`},                                                                                // raw-string prefix filter
 	8: {src: `(?<k>\w+)=(?<v>[^;]*);?`, extra: []regexp2.CompileOption{regexp2.OptionMaxCachedReplacerDataEntries(4)}},
+	// one pattern per candidate-search mode, so that lazily built or shared search state is exercised
+	9:  {src: `\s+end\w`},                                                                      // literal after a leading loop
+	10: {src: `\w+@[a-z]+\.(?:com|org)`},                                                       // landmark chain
+	11: {src: `(?:foo|bar|bazz)\d`, extra: []regexp2.CompileOption{regexp2.OptionIsCodeGen()}}, // leading strings (code-gen analysis)
+	12: {src: `..xy[ab]`},                                                                      // fixed-distance string
+	13: {src: `[ab][cd][ef]z`},                                                                 // fixed-distance sets
+	14: {src: `[a-c]\d{2}$`},                                                                   // trailing anchor, fixed length
+	15: {src: `(x+x+)+y`, timeout: 70 * time.Millisecond},                                      // a second timeout value: concurrent deadlines differ
+	16: {src: `héllo\s\w+`, opts: regexp2.IgnoreCase},                                          // ordinal-ignore-case prefix / Boyer-Moore with a non-ASCII rune
 }
 
 func compileH(i int) *regexp2.Regexp {
@@ -261,10 +270,24 @@ func init() {
 		}
 		return sb.String()
 	})
+	add("after-loop find", 9, opFindString("x  \t endy end  endz"))
+	add("after-loop bool", 9, opMatchString("the   end."))
+	add("after-loop findall", 9, opFindAll("  endA   endB", -1))
+	add("landmark find", 10, opFindString("mail bob@example.org or al@x.com"))
+	add("landmark replace", 10, opReplace("mail bob@example.org or al@x.com", "<$&>"))
+	add("strings find", 11, opFindString("xx bazz7 foo1 bar"))
+	add("strings bool", 11, opMatchString("nothing here bazz"))
+	add("fixed-string find", 12, opFindString("aaxyxy abxyb"))
+	add("fixed-sets find", 13, opFindString("acez bdfz adez"))
+	add("fixed-sets bool 4200", 13, opMatchString(sizedInput(4200, "bcfz")))
+	add("trailing-anchor find", 14, opFindString("a12 b34\nc56"))
+	add("timeout 70ms", 15, opFindString(strings.Repeat("x", 40)+"!"))
+	add("ic prefix find", 16, opFindString("say HÉLLO world and héLLo you"))
+	add("ic prefix chain", 16, opChain("say HÉLLO world and héLLo you", 100))
 	// inputs around the length at which the 64-slot limit of pattern 4 starts to fail (found at start-up)
 	thr := 1
 	for ; thr < 400; thr++ {
-		if strings.HasPrefix(opFindString(strings.Repeat("ab", thr) + "c")(compileH(4)), "error:") {
+		if strings.HasPrefix(opFindString(strings.Repeat("ab", thr)+"c")(compileH(4)), "error:") {
 			break
 		}
 	}
